@@ -77,7 +77,7 @@ _KNOWN = None
 def known_findings():
     global _KNOWN
     if _KNOWN is None:
-        path = os.path.join(VERIF_DIR, "known_findings.json")
+        path = os.environ.get("VERIF_KNOWN_FINDINGS") or os.path.join(VERIF_DIR, "known_findings.json")
         try:
             with open(path) as f:
                 _KNOWN = json.load(f).get("entries", [])
